@@ -183,7 +183,66 @@ def run_c17(ctx):
                               {"cmd": "serve", "cfg": list(s["cfg"]), "seed": s["seed"], "lines": lines, "round": kround})
                 break
     responder_send_failures(ctx)
+    shared_queue(ctx)
     proof_verdict(ctx)
+
+
+def shared_queue(ctx):
+    """the StatsQueue between workers and reporter: publishes (force_push) and drains in arbitrary
+    order, small capacities; the reporter's merged map vs the model's q_run; property: while no more
+    than `capacity` snapshots are published between two drains nothing may be missing from the sums"""
+    r = ctx.rng
+    lines, meta = [], []
+    for k in range(300 if not ctx.thorough else 3000):
+        cap = r.choice([1, 2, 2, 4, 8])
+        limit = r.choice([1, 2, 5, 100])
+        ops, pending, within = [], 0, True
+        for _ in range(r.choice([1, 3, 6, 12, 30])):
+            if r.random() < 0.3:
+                ops.append("D"); pending = 0
+            else:
+                n = r.choice([0, 1, 2, 5])
+                evs = [(lambda kk, a: kk + str(a) + (":%d" % r.choice([1, 408]) if kk in "rk" else ""))(r.choice(KINDS), r.choice([1, 2, 3, 1001, 2001])) for _ in range(n)]
+                ops.append("P:" + ",".join(evs))
+                if n:
+                    pending += 1
+                    if pending > cap and k % 3:          # two thirds of the cases stay within capacity
+                        ops.pop(); ops.append("D"); pending = 0
+                    elif pending > cap:
+                        within = False
+        ops.append("D")
+        lines.append("squeue %d %d %s" % (cap, limit, "|".join(ops))); meta.append((cap, limit, ops, within))
+    impl = vlib.run_impl(lines)
+    model = vlib.run_model(lines)
+    per = vlib.run_impl(["stats pc %d %s" % (limit, o[2:]) for cap, limit, ops, _ in meta for o in ops if o.startswith("P:")])
+    ctx.evaluations += len(lines)
+    j = 0
+    for (cap, limit, ops, within), line, li, lm in zip(meta, lines, impl, model):
+        rep = {"cmd": "squeue", "line": line[:8000], "impl": li[:1500], "model": lm[:1500]}
+        want = {}
+        for o in ops:
+            if o.startswith("P:"):
+                cl = clients_of(parse_out(per[j]).get("C")); j += 1
+                for a, vals in cl.items():
+                    cur = want.setdefault(a, [0] * 9)
+                    for i in range(9):
+                        cur[i] += vals[i]
+        if li.startswith(("PANIC", "CRASH", "HARNESS")):
+            ctx.violation("property", "publishing to / draining the statistics queue panicked", rep); continue
+        got = clients_of(parse_out(li).get("C"))
+        ctx.count("squeue:" + ("within-capacity" if within else "overflowing"))
+        if within and got != want:
+            ctx.violation("property", "no more than `capacity` snapshots were published between drains, yet the reporter's per-address sums differ from what the workers recorded", dict(rep, want=str(want)[:600])); continue
+        for a, vals in got.items():
+            if any(v > w for v, w in zip(vals, want.get(a, [0] * 9))):
+                ctx.violation("property", "the reporter reports more for address %d than the workers recorded" % a, rep); break
+        else:
+            if li != lm.split(" LOST=")[0]:
+                ctx.violation("tie", "model and implementation disagree on the shared statistics queue", rep)
+            else:
+                ctx.traces_validated += 1
+                if not within or len([o for o in ops if o.startswith("P:")]) >= 2:
+                    ctx.nontriv("squeue:" + rt.fnv64(line.encode()))
 
 
 def responder_send_failures(ctx):
@@ -255,7 +314,7 @@ def responder_send_failures(ctx):
 
 def replay(ctx, rep):
     vlib.build_harness(); vlib.gen_tables(); vlib.build_driver()
-    if rep.get("cmd") in ("stats", "merge", "respond"):
+    if rep.get("cmd") in ("stats", "merge", "respond", "squeue"):
         print("impl :", vlib.run_impl([rep["line"]])[0][:2000]); print("model:", vlib.run_model([rep["line"]])[0][:2000])
     else:
         return srvmod.replay(ctx, rep)
